@@ -171,4 +171,13 @@ def isSampleTemplate (tname : Str) : Bool := baseName tname = ['s', 'a', 'm', 'p
 def renders (o : Opts) (sh : Shape) (templates : List Str) : List Path :=
   (templates.filter fun t => !isPrivate t && !isSampleTemplate t).flatMap (renderTemplate o sh)
 
+/-- `get_response` collects the rendered files in an `OrderedDict` keyed by file name (`output_files.update(...)`):
+a name rendered by two templates occurs once, at the position of its first rendering -/
+def dedup : List Path → List Path
+  | [] => []
+  | p :: ps => p :: (dedup ps).filter (· ≠ p)
+
+/-- the file names of the response that come from the client templates -/
+def responseNames (o : Opts) (sh : Shape) (templates : List Str) : List Path := dedup (renders o sh templates)
+
 end GapicModel.Model.Emit
